@@ -67,6 +67,46 @@ def growth_sites(crate, cg, roots, stop=()):
     return out, reach
 
 
+def resolve_param_sites(crate, cg, f, loc, depth=0):
+    """a growth receiver rooted at a by-reference PARAMETER (not self): where do the callers get it from?
+    returns list of (caller fn, loc in caller) or None if it cannot be followed"""
+    if depth > 3 or loc is None or len(loc) != 1 or not (2 <= loc[0] <= f.arg_count):
+        return None
+    ai = loc[0] - 1
+    out = []
+    for caller in sorted(cg.rev.get(f.path, ())):
+        cf = crate.fns.get(caller)
+        if cf is None:
+            return None
+        for bid, t in cf.calls():
+            if cf.callee(t) == f.path:
+                l = arg_loc(cf, t, ai)
+                if l is None:
+                    return None
+                if len(l) == 1 and 2 <= l[0] <= cf.arg_count:
+                    sub = resolve_param_sites(crate, cg, cf, l, depth + 1)
+                    if sub is None:
+                        return None
+                    out.extend(sub)
+                else:
+                    out.append((cf, l))
+    return out or None
+
+
+def type_sig(ty):
+    """coarse, compilation-stable signature of a container type: outer Option/Box, container kind, head of the element type"""
+    m = re.search(r'(Vec|BinaryHeap|HashMap|HashSet|VecDeque|BTreeMap|BTreeSet|String|Box<\[)<?\s*([A-Za-z_][\w:]*)?', ty)
+    if not m:
+        return ty[:40]
+    return '%s%s<%s' % ('Option<' if ty.startswith('std::option::Option<') else '', m.group(1), m.group(2) or '')
+
+
+def type_inventory(crate, adts):
+    """multiset of (adt, container type signature) - robust against field renames and compilation-specific ids"""
+    from collections import Counter
+    return Counter((a, type_sig(ty)) for a, f, ty in container_fields(crate, adts))
+
+
 def site_key(f, g, loc):
     path = '.'.join(str(x) for x in (loc[1:] if loc else ())) or '<self>'
     return '%s|%s|%s' % (f.path, path, g.rsplit('::', 1)[-1])
